@@ -22,7 +22,8 @@ EXTENDS Naturals, Sequences, FiniteSets, TLC
 CONSTANTS MaxSteps
 
 Decls == {"A", "B", "k", "G", "E", "E2", "E3"}
-Files == {"entry", "m1", "m2", "m3"}     \* rendered as entry.ts, a/b/t.ts, a/c/t.ts, c/t.ts (nested directories, same base name)
+Files == {"entry", "m1", "m2", "m3", "m4"}     \* rendered as entry.ts, a/b/t.ts, a/c/t.ts, c/t.ts, a_b/t.ts (nested directories,
+                                                \* one base name; a/b/t.ts and a_b/t.ts sanitize to the same identifier part)
 Sites == {<<"T", "A">>, <<"T", "B">>, <<"T", "k">>, <<"T", "G">>, <<"A", "B">>, <<"T", "E">>, <<"T", "E2">>, <<"T", "E3">>}     \* <<user, used>>
 ExportStyles == {"inline", "list", "renamed", "default", "defaultExpr"}   \* defaultExpr (k only): export default { v: kin } as const
 ImportStyles == {"named", "renamedImport", "namespace", "typeonly", "importtype", "hopnamed", "hopstar", "hopns"}
